@@ -3,6 +3,7 @@ import json
 
 import engine
 import suite_types
+import suite_join
 
 
 def c04(rep, tier, seed):
@@ -16,7 +17,43 @@ def c04(rep, tier, seed):
     suite_types.trace(rep, tier, seed)
 
 
+JOIN_ASSUME = [
+    "key dtype admissibility (no float keys, kinds must match) is a precondition: rejected calls are counted as skipped",
+    "with zero result rows nothing is demanded of the result's columns",
+    "abstract key values are mapped to int/str/bool/date palettes by order- and equality-preserving injections",
+]
+
+
+def c09(rep, tier, seed):
+    rep.assumptions += JOIN_ASSUME
+    suite_join.mc(rep, tier)
+    seeds = (0, 1) if tier == "quick" else (0, 1, 2, 3, 5, 8, 13, 21)
+    cl = ("rows_inner", "operands_unchanged")
+    suite_join.gen(rep, tier, '{"inner"}', '{"many_to_many"}', cl, hashseeds=seeds)
+    suite_join.trace(rep, tier, seed, cl, kinds=("inner",), hashseed=seed % 1000)
+
+
+def c10(rep, tier, seed):
+    rep.assumptions += JOIN_ASSUME
+    suite_join.mc(rep, tier)
+    seeds = (0, 1) if tier == "quick" else (0, 1, 2, 3, 5, 8, 13, 21)
+    cl = ("rows_left", "rows_full")
+    suite_join.gen(rep, tier, '{"left","full"}', '{"many_to_many"}', cl, hashseeds=seeds)
+    suite_join.trace(rep, tier, seed, cl, kinds=("left", "full"), hashseed=seed % 1000)
+
+
+def c11(rep, tier, seed):
+    rep.assumptions += JOIN_ASSUME
+    suite_join.mc(rep, tier)
+    cl = ("cardinality", "errclass", "rows_inner", "rows_left", "rows_full")
+    suite_join.gen(rep, tier, '{"inner","left","full"}', suite_join.ALL_EXPECTS, cl)
+    suite_join.trace(rep, tier, seed, ("cardinality", "errclass"), hashseed=seed % 1000)
+
+
 CHECKS = {
+    "C09": c09,
+    "C10": c10,
+    "C11": c11,
     "C04": c04,
 }
 
